@@ -303,6 +303,8 @@ from extract_pytree import pytree_facts; EXTRA_SECTIONS.append(pytree_facts)
 from extract_prov import section as _prov_section; EXTRA_SECTIONS.append(_prov_section)  # M7 (C18)
 from extract_hash import hash_facts  # noqa: E402  (M4 / C12)
 EXTRA_SECTIONS.append(hash_facts)
+from extract_collect import collect_section  # C13
+EXTRA_SECTIONS.append(collect_section)  # C13
 
 
 def main(write: bool = True) -> int:
